@@ -132,6 +132,13 @@ class _ConstantFindingMapper(CombineMapper):
         self.is_constant[expr] = result
         return result
 
+    def map_logical_not(self, expr):
+        # CombineMapper forwards unary nodes to their child without calling
+        # combine(), which would leave *expr* unclassified and on the stack.
+        return self.combine((self.rec(expr.child),))
+
+    map_bitwise_not = map_logical_not
+
 
 def _is_atomic(expr):
     return isinstance(expr, Variable) or is_constant(expr)
